@@ -169,6 +169,22 @@ def run(ctx):
                 ctx.add('R5.only-under-successful-lookup', n['name'], loc(n), under,
                         'a send / registration / release happens in the response arm outside a successful lookup of the decoded ID')
 
+    # ------------------------------------------------------------------ R10 an abandoned operation is unrouted
+    # (responses the server still sends under the abandoned ID are then unmatched and, by R5, delivered to nobody)
+    REQ = ('variant', driver.ARM, 'Some', 0)
+    OPT = ('field', REQ, '1')
+    PAY = ('variant', OPT, 'LdapOp::Abandon', 0)
+    n_ab = 0
+    for o in driver.arm_paths(C, 'request')[0]:
+        if o.kind not in ('val', 'cont', 'brk') or absx.pc_variant(o.st.pc, lambda v: v == OPT, 'LdapOp::Abandon') is not True:
+            continue
+        n_ab += 1
+        for w in ('result', 'search'):
+            keys = [args[1] for i, name, args, node in driver.map_calls(C, o, w, ('remove',))]
+            ctx.add('R10.abandoned-operation-unrouted', w, loc(C.arms['request']['body']), PAY in keys,
+                    'the Abandon arm does not remove the %s routing entry of the abandoned ID: later responses under that ID are still delivered to the abandoned operation' % w)
+    ctx.floor('R10', 'Abandon paths of the request arm', n_ab, 1)
+
     # ------------------------------------------------------------------ R6 registration (request arm)
     req = C.arms['request']
     o_req = hirq.project(L.origin_of_bind(req['bindings'][0][0]), ('variant', 'Some', 0))
